@@ -19,6 +19,16 @@ CHECKS = {
  'C08': ('Strict/continue error discipline model-checked; real runs over every fault subset (dangling classes, refused documents); '
          'error <=> unresolvable followed ref, continue => bisimilar modulo opaque unresolvable refs, judged by TLC.',
          '6 (C08)', 'TLA+ model checking (TLC) + fault enumeration replayed on the real code + TLC-evaluated oracle'),
+ 'C09': ('Skip-mode behaviours of Expander.tla model-checked (schema refs never followed); real SkipSchemas runs judged by the structural '
+         'predicate Keeps (deref of elements, refs kept with the same designated node), definitions equality, written form, and a real '
+         'skip-then-full expansion compared with the direct one.',
+         '6 (C09)', 'TLA+ model checking (TLC) + replay of TLC-enumerated graphs + TLC-evaluated structural/bisimulation oracle'),
+ 'C10': ('Every referable element of every enumerated root expanded through all single-element entry points; bisimilarity, cut points, '
+         'root and options immutability judged on the real results.',
+         '6 (C10)', 'TLA+ model checking (TLC) + replay through every entry point + TLC-evaluated bisimulation oracle'),
+ 'C18': ('C18_AtMostOnce model-checked; real runs with no / fresh / pre-loaded (every subset) / reused caller caches; loader log and hook '
+         'trace judged by TLC (ExpTrace.tla); outputs compared across cache modes.',
+         '6 (C18)', 'TLA+ model checking (TLC) + TLC trace validation of cache/loader events + replay under every cache state'),
 }
 
 NA = {
